@@ -53,6 +53,10 @@ COLLIDING = [
     'grammar h;\nID = /[a-z]+/;\nstart = ID "." ID "a+";\n',
     'grammar i;\nID = /[A-Z]+/;\nANY = "x";\nstart = ID ANY;\n',
     'grammar j;\nPL = "+";\nstart = start "." | PL "a+" | ;\n',
+    # a punctuation terminal under a bracket in one specification, a non-terminal called like its nickname under the same bracket in
+    # another (both are named gen_<nickname>_<kind>: known finding D2 inside ONE specification; across specifications nothing is shared)
+    'grammar na;\nstart = item [","] {"+"};\nitem = "x";\n',
+    'grammar nb;\nstart = item [comma] {plus};\ncomma = ",";\nplus = "+";\nitem = "x";\n',
     # the same mistake in two specifications: each must get its own diagnostics
     'grammar x;\nID = $IDENT;\nstart = ID;\n',
     'grammar y;\nNUM = /[0-9]+/;\nWORD = $IDENT;\nBAD = /[z-a]/;\nstart = NUM missing;\n',
